@@ -1441,6 +1441,14 @@ func (ro *RedisOutput) bisyncStartPoint(ctx context.Context, runIDs []string) (S
 		if err != nil {
 			return sp, 0, false, err
 		}
+		// A root checkpoint that was moved forward by a later full sync makes the recovery state of
+		// the time before it obsolete, and the unit numbering starts at 1 again behind it. That state
+		// must not take part in the rebuild: its journal records would be taken for the missing units
+		// of the new numbering and the resume point would pass units that were never committed.
+		rootOwnsRunID := checkpoint.MatchBisyncRunID(rootStartPoint.RunId, runIDs)
+		if rootOwnsRunID && snapshot != nil && snapshot.Offset < rootStartPoint.Offset {
+			snapshot = nil
+		}
 		minSeq := int64(1)
 		if snapshot != nil && snapshot.UnitSeq > 0 {
 			minSeq = snapshot.UnitSeq + 1
@@ -1448,6 +1456,15 @@ func (ro *RedisOutput) bisyncStartPoint(ctx context.Context, runIDs []string) (S
 		records, err := checkpoint.LoadBisyncCommitRecords(cli, checkpointName, slots, runIDs, minSeq)
 		if err != nil {
 			return sp, 0, false, err
+		}
+		if rootOwnsRunID {
+			current := records[:0:0]
+			for _, record := range records {
+				if record != nil && record.EndOffset > rootStartPoint.Offset {
+					current = append(current, record)
+				}
+			}
+			records = current
 		}
 		ro.logger.Infof("bisync startpoint parallel: checkpoint(%s), slots(%d), snapshot(%+v), records(%d), minSeq(%d), runIDs(%v)", checkpointName, len(slots), snapshot, len(records), minSeq, runIDs)
 		frontier, err := checkpoint.RebuildBisyncFrontier(snapshot, records)
